@@ -132,7 +132,7 @@ def run_case(arg):
         comp = r.choice(["gzip", "xz", "zstd", "lz4"])
         T = r.random() < 0.4
         e = r.random() < 0.5
-        devbs = r.choice([None, 1024, 8192])
+        devbs = r.choice([None, 1024, 8192, 3000, 5000])
         tree, files = make_tree(r, bs)
         sortf, rules = make_sort_file(r, files)
         if idx % 8 == 5:
